@@ -136,7 +136,7 @@ static void build_blocks() {
     // ---- casts
     g_blocks.push_back(Block{"Integer casts to builtin", [](const Integer& x, const Integer&) { use((long) (int64_t) x); use((long) (uint64_t) x); use((long) (int32_t) x); use((long) (uint32_t) x); use((double) x); use((double) (float) x); use((long) (bool) x); use((long) (int16_t) x); use((long) (unsigned char) x); }});
     g_blocks.push_back(Block{"Integer -> std::string", [](const Integer& x, const Integer&) { std::string s = (std::string) x; std::string t = x.operator std::string(); use(s); use(t); }});
-    g_blocks.push_back(Block{"Integer stream io", [](const Integer& x, const Integer&) { std::ostringstream o; o << x; x.print(o << ' '); std::istringstream i(o.str()); Integer a, b; i >> a >> b; use(a); use(b); }});
+    g_blocks.push_back(Block{"Integer stream io", [](const Integer& x, const Integer&) { std::ostringstream o; o << x; x.print(o << ' '); std::istringstream i(o.str()); Integer a, b; i >> a >> b; std::ostringstream o2; absOutput(o2, x); use(o2.str()); use(a); use(b); }});
     // ---- Integer arithmetic
     g_blocks.push_back(Block{"Integer + - * operators", [](const Integer& x, const Integer& y) { Integer a = x + y, b = x - y, c = x * y, d = -x; a += y; b -= x; c *= y; a = a + (int64_t) 7 - (uint64_t) 9; a = (int64_t) 5 + a; a = (uint64_t) 5 * a; a = (int32_t) 3 - a; a *= (int64_t) -3; a += (uint64_t) 11; a -= (int32_t) 1; ++a; --a; a++; a--; use(a); use(b); use(c); use(d); }});
     g_blocks.push_back(Block{"Integer / % operators", [](const Integer& x, const Integer& y) { Integer n = nz(y); Integer a = x / n, b = x % n; a /= n; b %= n; Integer c = x / (int64_t) 7, d = x / (uint64_t) 9; use((long) (x % (int64_t) 7)); use((long) (x % (uint64_t) 9)); c /= (int64_t) 3; d /= (uint64_t) 5; Integer e = (int64_t) 1000 / n, f = (uint64_t) 1000 % n; use(a); use(b); use(c); use(d); use(e); use(f); }});
@@ -148,7 +148,7 @@ static void build_blocks() {
     g_blocks.push_back(Block{"Integer gcd/lcm/inv", [](const Integer& x, const Integer& y) { Integer g = gcd(x, y), u, v, g2 = gcd(u, v, x, y), l = lcm(x, y), m = pos(y) * 2 + 1, i; inv(i, Integer(2), m); Integer g3; gcd(g3, x, y); use(g); use(g2); use(u); use(v); use(l); use(i); use(g3); }});
     g_blocks.push_back(Block{"Integer compare / predicates", [](const Integer& x, const Integer& y) { use((long) compare(x, y)); use((long) absCompare(x, y)); use((long) (x == y) + (long) (x < y) + (long) (x >= (int64_t) 5) + (long) (x != (uint64_t) 5) + (long) (x > 1.5) + (long) isZero(x) + (long) isOne(x) + (long) sign(x)); Integer a = abs(x); use(a); }});
     g_blocks.push_back(Block{"Integer primes", [](const Integer& x, const Integer&) { Integer n = pos(x) % Integer("1000000000000000000000000") + 2, p, q; Protected::nextprime(p, n); Protected::prevprime(q, p + 100); use((long) Protected::probab_prime(p, 5)); use(p); use(q); }});
-    g_blocks.push_back(Block{"Integer random", [](const Integer& x, const Integer& y) { Integer a, b; Integer::random_lessthan(a, pos(x) + 1); Integer::random_exact_2exp(b, (uint64_t) 130); Integer c = Integer::random_between(Integer(0), pos(y) + 1); use(a); use(b); use(c); }});
+    g_blocks.push_back(Block{"Integer random", [](const Integer& x, const Integer& y) { Integer a, b; Integer::seeding(pos(x)); Integer::seeding((uint64_t) 17); Integer::random_lessthan(a, pos(x) + 1); Integer::random_exact_2exp(b, (uint64_t) 130); Integer c = Integer::random_between(Integer(0), pos(y) + 1); use(a); use(b); use(c); }});
     // ---- Rational
     g_blocks.push_back(Block{"Rational constructors", [](const Integer& x, const Integer& y) { Rational a(x, nz(y)), b(x), c((int64_t) x, (int64_t) 7), d(dbl(x) / 3.0), e(a), f((uint32_t) 5, (uint32_t) 10), g((int32_t) -4), h(x, nz(y), 0); std::string s = (std::string) x + "/" + (std::string) pos(y); Rational k(s.c_str()); a = b; e = e; use(a); use(c); use(d); use(e); use(f); use(g); use(h); use(k); }});
     g_blocks.push_back(Block{"Rational arithmetic", [](const Integer& x, const Integer& y) { Rational r(x, pos(y)), s(y + 1, pos(x)); Rational t = r + s, u = r - s, v = r * s, w = isZero(s) ? r : r / s; t += r; u -= s; v *= r; if (!isZero(s)) w /= s; t = -t; Rational p = pow(r, (int64_t) 3), p2 = pow(r, (uint64_t) 2); use(p2); Integer n = t.nume() + u.deno(); use(t); use(u); use(v); use(w); use(p); use(n); }});
